@@ -3,7 +3,7 @@
 Model: spec/RoleTree.tla (the two products transcribed and their algebra decided exhaustively,
 the property's order-free folds, and the implementation's incremental merge as update "threads"
 climbing the tree one critical section at a time), checked exhaustively by TLC: every sequence
-of leaf updates (unbounded length) on a family of 14 tree shapes, and every interleaving of two
+of leaf updates (unbounded length) on a family of 19 tree shapes (5 of them pruned by the loader: disabled roles), and every interleaving of two
 concurrent updates of different leaves.
 Binding: behaviours of spec/RoleTreeGen.tla (tlc -simulate) and TLC counterexamples are replayed
 by harness/cmd/roletree on REAL role trees loaded from generated workflow templates by the
@@ -66,8 +66,14 @@ CHECK_DEADLOCK FALSE
 
 # ---------------------------------------------------------------- trees -> workflow templates
 class Shape:
-    def __init__(self, name, parent, kind, crit):
+    """A role tree as the model sees it (after pruning). `source` = the workflow template it is loaded from when that
+    has roles disabled by their `enabled` field (same class, with `en`); `src` = template id of every node."""
+
+    def __init__(self, name, parent, kind, crit, src=None, en=None):
         self.name, self.parent, self.kind, self.crit = name, parent, kind, crit
+        self.src = src or list(range(1, len(parent) + 1))
+        self.en = en or [True] * len(parent)
+        self.source = None
         self.n = len(parent)
         self.children = {i: [j for j in range(1, self.n + 1) if parent[j - 1] == i] for i in range(1, self.n + 1)}
 
@@ -84,31 +90,48 @@ class Shape:
                    for i in range(1, self.n + 1))
 
     def node_name(self, i):
-        return {"agg": "a", "inc": "i", "task": "t", "call": "c"}[self.kind[i - 1]] + str(i)
+        return {"agg": "a", "inc": "i", "task": "t", "call": "c"}[self.kind[i - 1]] + str(self.src[i - 1])
 
     def names(self):
         return [self.node_name(i) for i in range(1, self.n + 1)]
 
     def templates(self, rng=None):
-        """(root document, {subworkflow name: document}); children optionally listed in a shuffled order."""
+        """(root document, {subworkflow name: document}); children optionally listed in a shuffled order.
+        A template with disabled roles is rendered from its source: `enabled: "false"` or an expression on a
+        variable defined in the root's defaults (which of the two: seeded)."""
+        if self.source is not None:
+            return self.source.templates(rng)
         subs = {}
+        flags = {}
+
+        def enabled_line(i, pad):
+            if self.en[i - 1]:
+                if rng is not None and rng.random() < 0.25:       # an expression that holds
+                    flags["en_%d" % i] = "on"
+                    return [pad + "  enabled: \"{{ en_%d == 'on' }}\"" % i]
+                return []
+            if rng is not None and rng.random() < 0.5:            # an expression that does not hold
+                flags["en_%d" % i] = "off"
+                return [pad + "  enabled: \"{{ en_%d == 'on' }}\"" % i]
+            return [pad + "  enabled: \"false\""]
 
         def role_lines(i, ind):
             pad = " " * ind
             k = self.kind[i - 1]
             nm = self.node_name(i)
+            head = [pad + "- name: " + nm] + enabled_line(i, pad)
             if k == "task":
-                return [pad + "- name: " + nm, pad + "  task:", pad + "    load: dummy",
-                        pad + "    critical: " + ("true" if self.crit[i - 1] else "false")]
+                return head + [pad + "  task:", pad + "    load: dummy",
+                               pad + "    critical: " + ("true" if self.crit[i - 1] else "false")]
             if k == "call":
-                return [pad + "- name: " + nm, pad + "  call:", pad + "    func: testplugin.Noop()",
-                        pad + "    trigger: before_START",
-                        pad + "    critical: " + ("true" if self.crit[i - 1] else "false")]
+                return head + [pad + "  call:", pad + "    func: testplugin.Noop()",
+                               pad + "    trigger: before_START",
+                               pad + "    critical: " + ("true" if self.crit[i - 1] else "false")]
             if k == "inc":
                 sub = "sub_" + nm
                 subs[sub] = "\n".join(["name: " + sub, "roles:"] + kids(i, 2)) + "\n"
-                return [pad + "- name: " + nm, pad + "  include: " + sub]
-            return [pad + "- name: " + nm, pad + "  roles:"] + kids(i, ind + 4)
+                return head + [pad + "  include: " + sub]
+            return head + [pad + "  roles:"] + kids(i, ind + 4)
 
         def kids(i, ind):
             ch = list(self.children[i])
@@ -119,7 +142,9 @@ class Shape:
                 out += role_lines(c, ind)
             return out
 
-        root = "\n".join(["name: " + self.node_name(1), "roles:"] + kids(1, 2)) + "\n"
+        body = kids(1, 2)
+        dfl = (["defaults:"] + ["  %s: \"%s\"" % kv for kv in sorted(flags.items())]) if flags else []
+        root = "\n".join(["name: " + self.node_name(1)] + dfl + ["roles:"] + body) + "\n"
         return root, subs
 
 
@@ -177,7 +202,8 @@ def run(ctx):
         "happens'); an update that gets through is driven to completion first",
         "concurrent = two updates of different leaves in flight (any number of such episodes in the recorded runs, %s in the "
         "exhaustive model); free-running runs with up to 4 goroutines are checked at quiescence only" % ("1 episode"),
-        "tree shapes: the 14 shapes of RoleTree!Shapes (depth <= 3, <= 5 leaves)",
+        "tree shapes: the 19 shapes of RoleTree!Shapes (depth <= 3, <= 5 leaves); 5 of them are what the loader leaves of "
+        "templates with roles disabled by `enabled` (literal or expression): the model tree is the tree after pruning",
     ]
     ctx.rule = ("scenario = a behaviour of RoleTreeGen (TLC -simulate, seeded; shape drawn by TLC, children listed in a seeded "
                 "random order) or a TLC counterexample, replayed step by step on a real role tree under gates; plus free-running "
@@ -201,13 +227,19 @@ def run(ctx):
     ctx.evaluations += alg[0][3] + alg[0][4]
     shapes = {}
     for rec in r.records("SHAPE"):
-        shapes[rec[1]] = Shape(rec[1], rec[2], rec[3], rec[4])
+        shapes[rec[1]] = Shape(rec[1], rec[2], rec[3], rec[4], src=rec[5])
+    pruned = []
+    for rec in r.records("SOURCE"):
+        if rec[1] in shapes:
+            shapes[rec[1]].source = Shape(rec[1], rec[2], rec[3], rec[4], en=rec[5])
+            pruned.append(rec[1])
     if len(shapes) < 10:
         raise vlib.Inconclusive("shape table not printed by TLC")
     names = sorted(shapes)
     dead = [s for s in names if shapes[s].has_dead_agg()]
     live = [s for s in names if s not in dead]
-    ctx.extra["shapes"] = {"all": names, "with_aggregator_without_critical_descendant": dead}
+    ctx.extra["shapes"] = {"all": names, "with_aggregator_without_critical_descendant": dead,
+                           "loaded_from_templates_with_disabled_roles": sorted(pruned)}
 
     scenarios = []
     predicted = []    # (scenario id, invariant, cls or None)
@@ -380,13 +412,18 @@ def _generate(ctx, quick, names, shapes, scenarios, mk_scenario, rng, dead_fixed
             shp_name = b[0][2]["shape"]
             scenarios.append(mk_scenario(sid, shp_name, beh_to_steps(b), rng if rng.random() < 0.6 else None, "generated:" + tag))
     # the documented example (DESIGN.md): root{a{t,t critical}, b{non-critical}}, every task CONFIGURED, one update at a time
-    if "S04" in shapes:
-        shp = shapes["S04"]
+    # ... and the same on every tree loaded from a template with disabled roles (the fold is over the SURVIVING leaves:
+    # an aggregator whose critical leaves were all pruned has no opinion), both renderings of `enabled`
+    dsid = 20
+    for nm in ["S04"] + sorted(x for x in names if shapes[x].source is not None):
+        shp = shapes[nm]
         steps = []
         for lf in [x for x in range(1, shp.n + 1) if shp.is_leaf(x)]:
             # "Run" = the driver takes the update to completion, one recorded step per critical section
             steps += [{"a": "Begin", "t": 1, "leaf": lf, "kind": "state", "v": "CONFIGURED"}, {"a": "Run", "t": 1}]
-        scenarios.append(mk_scenario(6, "S04", steps, None, "directed:all-tasks-CONFIGURED"))
+        for prng in ([None] if shp.source is None else [None, random.Random(ctx.seed * 31 + dsid)]):
+            dsid += 1
+            scenarios.append(mk_scenario(6 if nm == "S04" else dsid, nm, steps, prng, "directed:all-tasks-CONFIGURED"))
     # free-running runs: one goroutine per leaf
     nfree = 60 if quick else 400
     free = []
